@@ -36,7 +36,7 @@ def gen(tier: str, seed: int) -> list[Case]:
     cfg.reexport_forms = tuple(f for f in pg.ALL_REEXPORT_FORMS if f"reexport:{f}" not in gated)
     cfg.private_enums = True  # the inventory contains private declarations too
     cfg.inheritance = True
-    n = 24 if tier == "quick" else 400
+    n = 24 if tier == "quick" else 1600
     cases = []
     for i in range(n):
         pkg = pg.random_pkg(rng, cfg)
